@@ -81,3 +81,79 @@ func runDeep(c DeepCase) (res evid.Result, err error) {
 
 func TestPropDeep(t *testing.T)   { evid.Check(t, genDeep, runDeep) }
 func TestReplayDeep(t *testing.T) { evid.Replay(t, runDeep) }
+
+// ---------------------------------------------------------------- the reserved rune
+
+// U+E000 is the parser's internal mark for an unescaped wildcard.  A value that contains the
+// rune itself - typed raw in any quoting style, or written as an escape - denotes that
+// character, not a wildcard: either the query is refused or it keeps its meaning (here: no
+// document carries such a token, so the atom is false everywhere; read as a wildcard it would
+// match v0, v1 and v22).
+type ReservedCase struct {
+	Form  int  `json:"form"`  // spelling of the value
+	Neg   bool `json:"neg"`   // wrapped in NOT
+	Other int  `json:"other"` // 0 alone, 1 `and kw:v0`, 2 `or kw:v0`
+}
+
+var reservedForms = []string{"kw:\"v\ue000\"", "kw:'v\ue000'", "kw:`v\ue000`", "kw:v\ue000", "kw:\"v\\uE000\"", "kw:'\\ue000v'", "kw:\"\ue000\"", "kw:\"v\\U0000E000z\""}
+
+func genReserved(t *rapid.T) ReservedCase {
+	return ReservedCase{Form: rapid.IntRange(0, len(reservedForms)-1).Draw(t, "form"), Neg: rapid.Bool().Draw(t, "neg"), Other: rapid.IntRange(0, 2).Draw(t, "other")}
+}
+
+func runReserved(c ReservedCase) (res evid.Result, err error) {
+	if c.Form < 0 || c.Form >= len(reservedForms) {
+		return res, evid.Failf("bad_case", "form")
+	}
+	text := reservedForms[c.Form]
+	if c.Neg {
+		text = "not " + text
+	}
+	// truth tables over props5: bit j = assignment j; kw:v0 is proposition 0
+	var v0 uint64
+	for j := 0; j < 32; j++ {
+		if j&1 == 1 {
+			v0 |= 1 << j
+		}
+	}
+	atom := uint64(0)
+	if c.Neg {
+		atom = 1<<32 - 1
+	}
+	want := atom
+	switch c.Other {
+	case 1:
+		text += " and kw:v0"
+		want = atom & v0
+	case 2:
+		text += " or kw:v0"
+		want = atom | v0
+	}
+	defer func() {
+		if p := recover(); p != nil {
+			err = evid.Failf("parser-panic", "%q: %v", text, p)
+		}
+	}()
+	q, perr := parser.ParseSeqQL(text, meaningMapping)
+	if perr != nil {
+		res.Labels = append(res.Labels, "refused")
+		res.NonTrivial = true
+		return res, nil
+	}
+	got, terr := truthTable(q.Root, &fakeIndex{props: props5, n: 32}, false)
+	if terr != nil {
+		return res, evid.Failf("eval-error", "%q: %v", text, terr)
+	}
+	if got != want {
+		return res, evid.Failf("meaning-changed:reserved-rune", "%q parsed as %s: truth table %032b, the written expression denotes %032b (U+E000 in a value is a character, not a wildcard)", text, q.Root.String(), got, want)
+	}
+	res.Labels = append(res.Labels, "accepted-with-its-meaning")
+	res.NonTrivial = true
+	return res, nil
+}
+
+func TestPropReserved(t *testing.T) {
+	evid.For(t).Lazy()
+	evid.Check(t, genReserved, runReserved)
+}
+func TestReplayReserved(t *testing.T) { evid.Replay(t, runReserved) }
